@@ -266,9 +266,9 @@ func c05(r *lp.Run) {
 	var sets []*c05set
 	discarded := 0
 	fixed := [][]rroute{
-		{{"GET", "/a/{x}"}, {"GET", "/{y}/c"}, {"GET", "/a/b"}, {"POST", "/a/b"}},            // D5 shape + static wins + 405
-		{{"GET", "/a/{x}.json"}, {"GET", "/a/{x}"}, {"PUT", "/a/{x}/b"}},                      // K5 shape
-		{{"GET", "/{x}"}, {"GET", "/{x}b/c"}, {"DELETE", "/"}},                                // K7 shape
+		{{"GET", "/a/{x}"}, {"GET", "/{y}/c"}, {"GET", "/a/b"}, {"POST", "/a/b"}},              // D5 shape + static wins + 405
+		{{"GET", "/a/{x}.json"}, {"GET", "/a/{x}"}, {"PUT", "/a/{x}/b"}},                       // K5 shape
+		{{"GET", "/{x}"}, {"GET", "/{x}b/c"}, {"DELETE", "/"}},                                 // K7 shape
 		{{"GET", "/users/{id}"}, {"GET", "/users/me"}, {"POST", "/users"}, {"GET", "/users/"}}, // static vs param siblings
 	}
 	for i := 0; len(sets) < nSets && i < nSets*6; i++ {
@@ -320,9 +320,9 @@ func c05(r *lp.Run) {
 
 type probe struct {
 	method, path, raw string
-	kind          string
-	tmpl          string   // for instance probes: the template instantiated
-	args          []string // and its arguments
+	kind              string
+	tmpl              string   // for instance probes: the template instantiated
+	args              []string // and its arguments
 }
 
 func c05Probe(r *lp.Run, rng *lp.Rand, drv *gc.Driver, s *c05set, L int) {
